@@ -33,6 +33,7 @@ struct SiteResult {
     probe_wrong: Vec<String>,
     meta_field_deviations: u64,
     listing_skips: u64,
+    panicked: u64,
     rollback_prev: bool,
 }
 
@@ -43,11 +44,12 @@ fn check_site(sc: &Scenario, baseline_failed: &HashSet<Read>, t: &Tamper, strict
     };
     r.applied = true;
     let touched = t.keys();
-    let out = util::block_on(check_content(sc, &content, &touched, strict));
+    let out = check_content(sc, &content, &touched, strict);
     r.reads = out.reads;
     // failures the untampered store does not show: the tamper was detected
     r.failed = out.failed_reads.iter().filter(|rd| !baseline_failed.contains(*rd)).count() as u64;
     r.failed_anyway = out.failed - r.failed;
+    r.panicked = out.panicked;
     r.meta_field_deviations = out.soft.meta_field_deviations;
     r.listing_skips = out.soft.listing_entries_skipped;
     if t.is_probe() {
@@ -55,7 +57,7 @@ fn check_site(sc: &Scenario, baseline_failed: &HashSet<Read>, t: &Tamper, strict
             // does it answer exactly the earlier authentic commit?
             let mut alt = sc.clone();
             alt.original.get_mut("a").unwrap().plain = sc.old_plain.clone();
-            let alt_out = util::block_on(check_content(&alt, &content, &touched, strict));
+            let alt_out = check_content(&alt, &content, &touched, strict);
             r.rollback_prev = alt_out.wrong.is_empty() && alt_out.original > 0;
         }
         r.probe_wrong = out.wrong.into_iter().map(|(rd, why)| format!("{}: {why}", rd.kind())).collect();
@@ -80,11 +82,13 @@ fn check_site(sc: &Scenario, baseline_failed: &HashSet<Read>, t: &Tamper, strict
 
 fn baseline(sc: &Scenario, strict: bool) -> vstore::tamper::SiteOut {
     let keys: Vec<String> = sc.original.keys().cloned().collect();
-    util::block_on(check_content(sc, &sc.base, &keys, strict))
+    check_content(sc, &sc.base, &keys, strict)
 }
 
 fn main() {
     let mut run = Run::from_args("C09", "tamper", "fault_enumeration");
+    // a panic inside a read of tampered data is caught and counted; keep the console quiet
+    std::panic::set_hook(Box::new(|_| {}));
     if let Some(file) = run.replay_file.clone() {
         let doc: serde_json::Value = serde_json::from_slice(&std::fs::read(&file).expect("read replay")).expect("json");
         let r = &doc["replay"];
@@ -206,6 +210,7 @@ fn main() {
             run.add("reads_of_invalid_ranges_failing_anyway", r.failed_anyway);
             run.add("reads_original_after_tamper", r.reads - r.failed - r.failed_anyway - r.wrong.len() as u64);
             run.add("soft_listing_entries_skipped", r.listing_skips);
+            run.add("reads_that_panicked", r.panicked);
             if r.meta_field_deviations > 0 {
                 run.add("soft_meta_field_deviations", r.meta_field_deviations);
                 *soft_kinds.entry(format!("{} [{mode}]", r.kind)).or_insert(0) += 1;
